@@ -289,6 +289,25 @@ def run_shard(sh):
                 bad('reference-decode-differs', feats, 'flowspec rule of %d octets (with its length field): encoded %s decoded %s (sub_error %s)' % (
                     rl, json.dumps(want_attr.get(str(code)))[:200], json.dumps(got_attr.get(str(code)))[:200], r['sub_error']), rep)
     vcount['flowspec_long_rules'] = nfs
+    # ------------------------------------------------------------ End-of-RIB markers (RFC 4724): MP_UNREACH_NLRI with a family and no route
+    neor = 0
+    for afs in ([2, 1], [1, 4], [2, 4], [1, 128], [2, 128], [25, 70], [1, 133], [1, 1]) if sh['part'] < 4 else []:
+        for asn4 in (True, False):
+            at = refenc.attr(15, struct.pack('!HB', afs[0], afs[1]))
+            body = struct.pack('!H', 0) + struct.pack('!H', len(at)) + at
+            neor += 1
+            res['evaluations'] += 1
+            rep_ = dict(body=body.hex(), asn4=asn4)
+            try:
+                r = Update.parse(None, body, asn4)
+            except Exception as e:
+                bad('reference-decode-raised', ['variant:end-of-rib'], 'Update.parse raised %r on the End-of-RIB marker of family %s' % (e, afs), rep_)
+                continue
+            got = gen.norm((r['attr'] or {}).get(15))
+            if r['sub_error'] or not got or got.get('afi_safi') != afs or got.get('withdraw') not in ([], None, '', "b''"):
+                bad('reference-decode-differs', ['variant:end-of-rib', 'family:%d/%d' % tuple(afs)],
+                    'End-of-RIB marker of family %s decoded to %s (sub_error %s)' % (afs, json.dumps(got)[:200], r['sub_error']), rep_)
+    vcount['end_of_rib_markers'] = neor
     # ------------------------------------------------------------ error half
     nerr = 0
     base = {1: 0, 2: [[2, [65001]]], 3: '10.0.0.1'}
